@@ -26,14 +26,14 @@ pub fn spec_rel_date(op: &Op, t: i64, a: i64, b: i64) -> Option<bool> {
 fn c02_cmp_int() {
     let op = any_cmp_op(); let f: i64 = kani::any(); let v: i64 = kani::any();
     kani::cover!(true);
-    assert!(Some(frag_cmp_int(&op, f, v)) == spec_rel_i64(&op, f, v), "OBL C02.cmp.int");
+    assert!(Some(frag_cmp_int(&op, &FV::int(f), &FV::int(v))) == spec_rel_i64(&op, f, v), "OBL C02.cmp.int");
 }
 #[kani::proof]
 fn c02_cmp_float() {
     let op = any_cmp_op(); let f: f64 = kani::any(); let v: f64 = kani::any();
     kani::assume(!f.is_nan() && !v.is_nan());
     kani::cover!(true);
-    assert!(Some(frag_cmp_float(&op, f, v)) == spec_rel_f64(&op, f, v), "OBL C02.cmp.float");
+    assert!(Some(frag_cmp_float(&op, &FV::float(f), &FV::float(v))) == spec_rel_f64(&op, f, v), "OBL C02.cmp.float");
 }
 #[kani::proof]
 fn c02_cmp_bool() {
@@ -42,7 +42,7 @@ fn c02_cmp_bool() {
     // tautology (a <= b) == ((a as i64) <= (b as i64)) is reported FAILED), so they are left out.
     let op = any_eq_op(); let f: bool = kani::any(); let v: bool = kani::any();
     kani::cover!(true);
-    assert!(Some(frag_cmp_bool(&op, f, v)) == spec_rel_i64(&op, f as i64, v as i64), "OBL C02.cmp.bool");
+    assert!(Some(frag_cmp_bool(&op, &FV::boolean(f), &FV::boolean(v))) == spec_rel_i64(&op, f as i64, v as i64), "OBL C02.cmp.bool");
 }
 #[kani::proof]
 fn c13_cmp_datetime() {
@@ -51,17 +51,17 @@ fn c13_cmp_datetime() {
     let t: i64 = kani::any(); let a: i64 = kani::any(); let b: i64 = kani::any();
     kani::assume(a <= b);
     kani::cover!(true);
-    assert!(Some(frag_cmp_datetime(&op, t, a, b)) == spec_rel_date(&op, t, a, b), "OBL C13.cmp.datetime");
+    assert!(Some(frag_cmp_datetime(&op, &FV::date(t, t), &FV::date(a, b))) == spec_rel_date(&op, t, a, b), "OBL C13.cmp.datetime");
 }
 #[kani::proof]
 fn c13_trichotomy() {
     let t: i64 = kani::any(); let a: i64 = kani::any(); let b: i64 = kani::any();
     kani::assume(a <= b);
-    let n = frag_cmp_datetime(&Op::Lt, t, a, b) as u8 + frag_cmp_datetime(&Op::Eq, t, a, b) as u8
-        + frag_cmp_datetime(&Op::Gt, t, a, b) as u8;
+    let n = frag_cmp_datetime(&Op::Lt, &FV::date(t, t), &FV::date(a, b)) as u8 + frag_cmp_datetime(&Op::Eq, &FV::date(t, t), &FV::date(a, b)) as u8
+        + frag_cmp_datetime(&Op::Gt, &FV::date(t, t), &FV::date(a, b)) as u8;
     kani::cover!(true);
     assert!(n == 1, "OBL C13.trichotomy: exactly one of < = > holds");
-    assert!(frag_cmp_datetime(&Op::Ne, t, a, b) == !frag_cmp_datetime(&Op::Eq, t, a, b), "OBL C13 != is the complement of =");
+    assert!(frag_cmp_datetime(&Op::Ne, &FV::date(t, t), &FV::date(a, b)) == !frag_cmp_datetime(&Op::Eq, &FV::date(t, t), &FV::date(a, b)), "OBL C13 != is the complement of =");
 }
 // C03: each negative comparison is the complement of its positive counterpart, per typed arm, with the REAL
 // Op::negate table (crate::operators::Op::negate).
@@ -69,32 +69,32 @@ fn c13_trichotomy() {
 fn c03_negate_complement_int() {
     let op = any_cmp_op(); let f: i64 = kani::any(); let v: i64 = kani::any();
     kani::cover!(true);
-    assert!(frag_cmp_int(&Op::negate(op), f, v) == !frag_cmp_int(&op, f, v), "OBL C03.negate.complement.int");
+    assert!(frag_cmp_int(&Op::negate(op), &FV::int(f), &FV::int(v)) == !frag_cmp_int(&op, &FV::int(f), &FV::int(v)), "OBL C03.negate.complement.int");
 }
 #[kani::proof]
 fn c03_negate_complement_float() {
     let op = any_cmp_op(); let f: f64 = kani::any(); let v: f64 = kani::any();
     kani::assume(!f.is_nan() && !v.is_nan());
     kani::cover!(true);
-    assert!(frag_cmp_float(&Op::negate(op), f, v) == !frag_cmp_float(&op, f, v), "OBL C03.negate.complement.float");
+    assert!(frag_cmp_float(&Op::negate(op), &FV::float(f), &FV::float(v)) == !frag_cmp_float(&op, &FV::float(f), &FV::float(v)), "OBL C03.negate.complement.float");
 }
 #[kani::proof]
 fn c03_negate_complement_bool() {
     // ordering ops on symbolic bools: see c02_cmp_bool
     let op = any_eq_op(); let f: bool = kani::any(); let v: bool = kani::any();
     kani::cover!(true);
-    assert!(frag_cmp_bool(&Op::negate(op), f, v) == !frag_cmp_bool(&op, f, v), "OBL C03.negate.complement.bool");
+    assert!(frag_cmp_bool(&Op::negate(op), &FV::boolean(f), &FV::boolean(v)) == !frag_cmp_bool(&op, &FV::boolean(f), &FV::boolean(v)), "OBL C03.negate.complement.bool");
 }
 #[kani::proof]
 fn c03_negate_complement_datetime() {
     let op = any_cmp_op(); let t: i64 = kani::any(); let a: i64 = kani::any(); let b: i64 = kani::any();
     kani::assume(a <= b);
     kani::cover!(true);
-    assert!(frag_cmp_datetime(&Op::negate(op), t, a, b) == !frag_cmp_datetime(&op, t, a, b),
+    assert!(frag_cmp_datetime(&Op::negate(op), &FV::date(t, t), &FV::date(a, b)) == !frag_cmp_datetime(&op, &FV::date(t, t), &FV::date(a, b)),
             "OBL C03.negate.complement.datetime");
 }
 #[kani::proof]
 fn canary_cmp_must_fail() {
     let f: i64 = kani::any();
-    assert!(frag_cmp_int(&Op::Gt, f, 0), "CANARY must fail");
+    assert!(frag_cmp_int(&Op::Gt, &FV::int(f), &FV::int(0)), "CANARY must fail");
 }
